@@ -262,7 +262,7 @@ def key_card(key, valuestr, comment, is_string):
     else:
         c = "HIERARCH " + key + " = " + valuestr
         if len(c) > 80: c = "HIERARCH " + key + "= " + valuestr
-        if len(c) > 80: c = "HIERARCH " + key + "=" + valuestr
+        # (the installed cfitsio has no further step "KEY=value": native probe, k=15: a 52-character string survives as "KEY= 'v'", 53 is truncated)
     if comment:
         if len(c) < 30: c = c.ljust(30)
         c += " / " + comment
